@@ -49,6 +49,9 @@ KT = {"ord": "KOrd", "nosend": "KNoSend", "nosync": "KNoSync"}
 HT = {"ord": "HOrd", "nosend": "HNoSend", "nosync": "HNoSync"}
 
 
+REPO = os.environ.get("LASSO_REPO", "/repo")
+
+
 def lasso_rlib():
     """Build lasso (through the harness crate) and return (rlib path, deps dir)."""
     rc, out = sh(["cargo", "build", "--release", "--offline", "--message-format=json", "--lib"], cwd=HARNESS, timeout=1800)
@@ -67,6 +70,28 @@ def lasso_rlib():
     if rc != 0 or not rlib:
         return None, None, out[-1500:]
     return rlib, os.path.join(os.path.dirname(rlib)), ""
+
+
+def lasso_rlib_default():
+    """lasso built from the working tree with *default* features only (no `multi-threaded`, no `serialize`):
+    the configuration of the pinned suite.  Conditional compilation can make the marker impls differ."""
+    tdir = os.path.join(HARNESS, "target", "nofeat")
+    rc, out = sh(["cargo", "build", "--release", "--offline", "--message-format=json", "--lib", "--target-dir", tdir], cwd=REPO, timeout=1800)
+    rlib = None
+    for line in out.splitlines():
+        if not line.startswith("{"):
+            continue
+        try:
+            m = json.loads(line)
+        except Exception:
+            continue
+        if m.get("reason") == "compiler-artifact" and m.get("target", {}).get("name") == "lasso":
+            for f in m.get("filenames", []):
+                if f.endswith(".rlib"):
+                    rlib = f
+    if rc != 0 or not rlib:
+        return None, None, out[-1500:]
+    return rlib, os.path.join(tdir, "release", "deps"), ""
 
 
 def compile_probe(path, rlib, deps, outdir, run=False):
@@ -182,6 +207,32 @@ def stream_c19(ctx):
                 res["M"].append({"kind": "probe", "what": f"{p['name']}: model predicts {'accept' if want else 'reject'}, rustc {'accepts' if accepted else 'rejects'}", "file": p["path"]})
         if len(res["samples"]) < 3 and i % 23 == 0:
             res["samples"].append({"probe": p["name"], "type": p["ty"], "rustc": "accepts" if accepted else "rejects (E0277)", "model": preds[i] if i < len(preds) else None})
+    # the same matrix for the containers that exist without the `multi-threaded` feature, against a build
+    # with default features only: the verdicts must be the same (and obey the property)
+    rlib2, deps2, err2 = lasso_rlib_default()
+    n_default = 0
+    if not rlib2:
+        res["M"].append({"kind": "lasso build", "what": "lasso does not build with default features for the probes", "log": err2})
+    else:
+        sub = [(p, o) for p, o in zip(probes, outs) if not p["name"].startswith("ThreadedRodeo")]
+        work2 = os.path.join(work, "default-features")
+        os.makedirs(work2, exist_ok=True)
+        with concurrent.futures.ThreadPoolExecutor(max_workers=16) as ex:
+            outs2 = list(ex.map(lambda po: compile_probe(po[0]["path"], rlib2, deps2, work2), sub))
+        for (p, o1), o2 in zip(sub, outs2):
+            n_default += 1
+            parts = p["name"].split("_")
+            m, kk, hk = parts[1], parts[2], parts[3]
+            bad = "nosend" if m == "Send" else "nosync"
+            allowed = (kk != bad) and (hk != bad)
+            if o2["ok"] and not allowed:
+                res["I"].append({"stream": "rustc-probes:C19", "fingerprint": f"default-features-{parts[0]}-{m}-with-{kk}-key-{hk}-hasher",
+                                 "what": f"built with default features, {p['ty']}: {m} is accepted by rustc although the key ({kk}) or hasher ({hk}) is not {m}",
+                                 "probe_file": p["path"], "source": open(p["path"]).read()})
+            elif o2["ok"] != o1["ok"]:
+                res["M"].append({"kind": "probe", "what": f"{p['name']}: rustc {'accepts' if o1['ok'] else 'rejects'} with all features and {'accepts' if o2['ok'] else 'rejects'} with default features", "file": p["path"]})
+            elif not o2["ok"] and o2["codes"] != ["E0277"]:
+                res["M"].append({"kind": "probe", "what": f"{p['name']} (default features): rejected for an unexpected reason {o2['codes']} {o2['messages'][:1]}", "file": p["path"]})
     # the documented positive cases compile and run
     pos = os.path.join(work, "positive.rs")
     open(pos, "w").write(C19_POSITIVE)
@@ -189,7 +240,8 @@ def stream_c19(ctx):
     if not o["ok"] or not o["ran"]:
         res["I"].append({"stream": "rustc-probes:C19", "fingerprint": "documented-case-fails",
                          "what": f"the documented move/share program does not compile or run: {o['codes']} {o['messages'][:2]} {o.get('run_output', '')}", "probe_file": pos})
-    res["stats"] = {"probes": len(probes), "accepted": n_accept, "rejected": n_reject, "positive_program_ran": bool(o.get("ran")), "exhaustive": True}
+    res["stats"] = {"probes": len(probes), "accepted": n_accept, "rejected": n_reject, "positive_program_ran": bool(o.get("ran")), "exhaustive": True,
+                    "probes_against_default_feature_build": n_default}
     return res
 
 
@@ -312,6 +364,24 @@ def stream_c20(ctx):
         good = C20_PRELUDE + f"fn main() {{\n    {setup}\n    {call.replace('ARG', chr(34) + 'x' + chr(34))}\n}}\n"
         add(f"static_{owner}_{meth}", f"staticArg {owner} {meth}", bad, good, f"{owner}::{meth} fed a non-'static string")
 
+    # ... and fed an *owned* string (a `'static` type is not a string that lives for the whole program): the
+    # zero-copy entry points must not accept `String`, `Box<str>`, `Rc<str>` (oracle only, no model query)
+    owned = []
+    for (owner, meth), (setup, call) in STATIC_PROBES.items():
+        if not meth.endswith("_static"):
+            continue
+        for tag, arg in (("string", 'String::from("x")'), ("boxstr", 'String::from("x").into_boxed_str()'), ("rcstr", 'std::rc::Rc::<str>::from("x")')):
+            pb = os.path.join(work, f"owned_{owner}_{meth}_{tag}_bad.rs")
+            open(pb, "w").write(C20_PRELUDE + f"fn main() {{\n    {setup}\n    {call.replace('ARG', arg)} // PROBE\n}}\n")
+            owned.append({"name": f"owned_{owner}_{meth}_{tag}", "bad": pb, "what": f"{owner}::{meth} accepts an owned {arg}"})
+    with concurrent.futures.ThreadPoolExecutor(max_workers=16) as ex:
+        owned_outs = list(ex.map(lambda o: compile_probe(o["bad"], rlib, deps, work), owned))
+    for o, r in zip(owned, owned_outs):
+        if r["ok"]:
+            res["I"].append({"stream": "rustc-probes:C20", "fingerprint": o["name"],
+                             "what": f"rustc accepts a program in which {o['what']} (the interner would keep a pointer into a buffer that is freed when the argument is dropped)",
+                             "probe_file": o["bad"], "source": open(o["bad"]).read()})
+
     preds = driver_answers([p["query"] for p in probes]) if ctx["driver_ok"] else []
     jobs = []
     for p in probes:
@@ -356,6 +426,30 @@ def stream_c20(ctx):
         if len(res["samples"]) < 3 and i % 41 == 0:
             res["samples"].append({"probe": p["name"], "model": pred, "rustc": "accepts" if ob["ok"] else f"rejects {ob['codes']}",
                                    "program": open(p["bad"]).read().split("fn main()")[1][:300]})
+    # the must-fail programs that do not need the `multi-threaded` feature, against a default-features build:
+    # conditional compilation must not change a verdict
+    n_default = 0
+    rlib2, deps2, err2 = lasso_rlib_default()
+    if not rlib2:
+        res["M"].append({"kind": "lasso build", "what": "lasso does not build with default features for the probes", "log": err2})
+    else:
+        sub = [(i, p) for i, p in enumerate(probes) if "ThreadedRodeo" not in open(p["bad"]).read()]
+        work2 = os.path.join(work, "default-features")
+        os.makedirs(work2, exist_ok=True)
+        with concurrent.futures.ThreadPoolExecutor(max_workers=16) as ex:
+            outs2 = list(ex.map(lambda ip: compile_probe(ip[1]["bad"], rlib2, deps2, work2), sub))
+        for (i, p), o2 in zip(sub, outs2):
+            n_default += 1
+            ob = outs[2 * i]
+            is_copying = p["name"].startswith("static_") and "_static" not in p["name"][7:]
+            if o2["ok"] and not is_copying:
+                res["I"].append({"stream": "rustc-probes:C20", "fingerprint": "default-features-" + p["name"],
+                                 "what": f"built with default features, rustc accepts a program in which a {p['what']}", "probe_file": p["bad"],
+                                 "source": open(p["bad"]).read()})
+            elif o2["ok"] != ob["ok"]:
+                res["M"].append({"kind": "probe", "what": f"{p['name']}: rustc {'accepts' if ob['ok'] else 'rejects'} with all features and {'accepts' if o2['ok'] else 'rejects'} with default features", "file": p["bad"]})
     res["stats"] = {"probes": len(probes), "programs_compiled": len(jobs), "must_fail_rejected": n_rej, "must_fail_accepted": n_acc,
-                    "twins_ok": n_twin_ok, "error_codes": codes_hist, "exhaustive": True}
+                    "must_fail_programs_against_default_feature_build": n_default,
+                    "twins_ok": n_twin_ok, "error_codes": codes_hist, "exhaustive": True,
+                    "owned_argument_probes": len(owned), "owned_argument_probes_rejected": sum(1 for r in owned_outs if not r["ok"])}
     return res
